@@ -6,16 +6,16 @@ ROOT = os.path.dirname(os.path.dirname(os.path.abspath(__file__)))
 COMMON_NOTE = ("Trusted: Lean 4.33.0 kernel; axioms propext/Classical.choice/Quot.sound only (audited each run, no sorry/native_decide); "
                "the kfacts translator and the kdiff correspondence harness (generator reach bounds what the tie can see). ")
 
-# id -> (claimed?, level text, level note (assumptions), technique, design ref)
-CHECKS = {
- "C20": ("Lean 4 theorems (refinement of the ring buffer/tracker to a sliding-window log over ALL histories: C20_ring_window, C20_status, "
-         "C20_observations, C20_dryrun_agrees, C20_condition_*) about a hand-written model whose constants are regenerated from the Go source "
-         "on every run; the model is tied to the real nodepoolhealth.State / ringbuffer by differential op-sequence correspondence, and the "
-         "spec is evaluated directly on the implementation's observations.",
-         COMMON_NOTE + "Modelled not verified: the condition update in registration.go/liveness.go is modelled (recordSuccess/recordFailure) with the status "
-         "patch assumed to succeed or to leave everything unchanged; mutex-protected methods are atomic; restart = a fresh State.",
-         "Lean 4 proof (refinement by induction over histories) + differential correspondence + regenerated facts", "DESIGN.md §4 C20"),
-}
+def load_checks():
+    out = {}
+    d = os.path.join(ROOT, "manifest")
+    for f in sorted(os.listdir(d)):
+        if f.endswith(".json"):
+            x = json.load(open(os.path.join(d, f)))
+            out[x["property_id"]] = (x["text"], COMMON_NOTE + x["note"], x["technique"], x.get("design_ref", "DESIGN.md §4 " + x["property_id"]))
+    return out
+
+CHECKS = load_checks()
 
 REASON_PENDING = "not claimed yet: model/theorems for this property are still being built (see DESIGN.md §6 staging); nothing is asserted about it"
 
